@@ -9,7 +9,7 @@ use serde_json::{json, Value};
 use std::io::{Cursor, Write};
 use vph::refdec;
 
-pub const RULE: &str = "(1) full product grid depth {0,1..32,33,u32::MAX} × channels {0,1..8,9,255} × rate {0,1,8000,44100,65535,655350,2^20-1,2^20,u32::MAX} × total {none,0,1,ch-1,ch,ch·w,2^36-1,2^36,u64::MAX…} for the byte, sample and channel writer constructors; (2) every Options setter over boundary values; (3) FlacStreamWriter::write parameter grid; (4) every documented value alone and every pair of documented values across axes (depth 1..32, channels 1..8, rates, LPC order none/1..32, partition order 0..15, block sizes) encodes a short signal that the independent decoder decodes back; (5) declared-length contract: for D ∈ {1,16,17,40} PCM frames, supply ∈ {D−1, D, D+1, 2D}, every ≤2-cut write history (thorough: 4 formats, D ∈ {1,2,15,16,17,32,33,40}, ≤3 cuts for supplies ≤ 34), three writers, plus undeclared; both build profiles; (6) FlacChannelWriter::write with malformed channel sets (0..9 channels given to 1/2/3/8-channel writers, unequal / empty channel lengths) at each position of a 3-call history: an error or success, never a panic; (7) the new_cdda constructors of the three writers produce the same file / the same error class as new(44100 Hz, 16 bit, 2 channels) for undeclared, exact, short and long declared totals";
+pub const RULE: &str = "(1) full product grid depth {0,1..32,33,u32::MAX} × channels {0,1..8,9,255} × rate {0,1,8000,44100,65535,655350,2^20-1,2^20,u32::MAX} × total {none,0,1,ch-1,ch,ch·w,2^36-1,2^36,u64::MAX…} for the byte, sample and channel writer constructors; (2) every Options setter over boundary values; (3) FlacStreamWriter::write parameter grid; (4) every documented value alone and every pair of documented values across axes (depth 1..32, channels 1..8, rates, LPC order none/1..32, partition order 0..15, block sizes) encodes a short signal that the independent decoder decodes back; (5) declared-length contract: for D ∈ {1,16,17,40} PCM frames, supply ∈ {D−1, D, D+1, 2D}, every ≤2-cut write history (thorough: 4 formats, D ∈ {1,2,15,16,17,32,33,40}, ≤3 cuts for supplies ≤ 34), three writers, plus undeclared; the exact and undeclared fills again with the stream starting at offset 7 / 300 / 5000 of its sink (3 formats); both build profiles; (6) FlacChannelWriter::write with malformed channel sets (0..9 channels given to 1/2/3/8-channel writers, unequal / empty channel lengths) at each position of a 3-call history: an error or success, never a panic; (7) the new_cdda constructors of the three writers produce the same file / the same error class as new(44100 Hz, 16 bit, 2 channels) for undeclared, exact, short and long declared totals";
 pub const ASSUMPTIONS: &[&str] = &["'works' is judged on one fixed signal per parameter vector (signal variety: C01)", "triples of documented values are covered only through C01's option lattice"];
 pub fn bounds(quick: bool) -> Value {
     json!({"grid": "full product", "pairs": if quick { "all cross-axis pairs, block sizes {16,17,192,4096}" } else { "all cross-axis pairs, block sizes {16,17,192,4096,65535}" }, "history_cuts": 2})
@@ -226,8 +226,15 @@ fn documented(ctx: &Ctx, acc: &mut Acc) {
 
 /// declared-length contract. Returns Ok(file) / Err(where-the-error-came-from)
 fn fill(w: WriterKind, sig: &Sig, declared: Option<usize>, pcm: &[i32], cuts: &[usize]) -> Result<Result<Vec<u8>, &'static str>, String> {
+    fill_at(w, sig, declared, pcm, cuts, 0)
+}
+
+/// `start` > 0: the sink already holds `start` foreign bytes and is positioned behind them (the stream does not begin at
+/// offset 0 of its writer); the returned bytes are the stream alone, Err("prefix") if the foreign bytes were touched
+fn fill_at(w: WriterKind, sig: &Sig, declared: Option<usize>, pcm: &[i32], cuts: &[usize], start: usize) -> Result<Result<Vec<u8>, &'static str>, String> {
     guarded(|| {
-        let mut out = Cursor::new(Vec::new());
+        let mut out = Cursor::new(vec![0x5Au8; start]);
+        out.set_position(start as u64);
         let options = Options::default().block_size(16).unwrap();
         let ch = sig.ch as usize;
         let mut pieces = Vec::new();
@@ -285,7 +292,11 @@ fn fill(w: WriterKind, sig: &Sig, declared: Option<usize>, pcm: &[i32], cuts: &[
                 }
             }
         }
-        Ok(out.into_inner())
+        let all = out.into_inner();
+        if all.len() < start || all[..start].iter().any(|b| *b != 0x5A) {
+            return Err("prefix");
+        }
+        Ok(all[start..].to_vec())
     })
 }
 
@@ -353,6 +364,48 @@ fn contract(ctx: &Ctx, acc: &mut Acc) {
                             acc.outcome(format!("contract:{w:?}:{rel}:{}", match &r { Err(_) => "panic".into(), Ok(Ok(_)) => "Ok".to_string(), Ok(Err(s)) => format!("Err@{s}") }));
                             if let Some((clause, detail)) = bad {
                                 acc.violation(format!("C15|contract|{w:?}|{rel}|{clause}"), format!("{w:?} {}ch/{}bit cuts {cuts:?}: {detail}", sig.ch, sig.bps), case);
+                            }
+                        }
+                    }
+                }
+            }
+        }
+    }
+}
+
+/// "when none is declared the final count is recorded" / an exactly filled declared length finishes — also when the stream
+/// does not start at offset 0 of its sink
+fn contract_at_offset(ctx: &Ctx, acc: &mut Acc) {
+    for sig in [Sig { rate: 44100, bps: 16, ch: 1 }, Sig { rate: 44100, bps: 8, ch: 2 }, Sig { rate: 48000, bps: 24, ch: 3 }] {
+        for supply in [1usize, 16, 40] {
+            for declared in [Some(supply), None] {
+                for start in [7usize, 300, 5000] {
+                    for cuts in [vec![], vec![supply / 2]] {
+                        for w in [WriterKind::Sample, WriterKind::ByteLE, WriterKind::Channel] {
+                            if !ctx.mine() {
+                                continue;
+                            }
+                            acc.states += 1;
+                            acc.executions += 1;
+                            acc.transitions += cuts.len() as u64 + 2;
+                            let pcm = ident_pcm(sig.ch, sig.bps, supply);
+                            let r = fill_at(w, &sig, declared, &pcm, &cuts, start);
+                            let case = json!({"kind":"length-contract-offset","writer":format!("{w:?}"),"bps":sig.bps,"ch":sig.ch,"rate":sig.rate,"declared":declared,"supply":supply,"cuts":cuts,"start":start});
+                            let bad: Option<(String, String)> = match &r {
+                                Err(p) => Some((format!("panic@{}", crate::core::panic_loc(p)), format!("panics: {p}"))),
+                                Ok(Err(stage)) => Some((format!("valid-fill-refused-at-{stage}"), format!("declared {declared:?}, supplied {supply}, stream at offset {start}: error at {stage}"))),
+                                Ok(Ok(bytes)) => match decode(ReaderKind::SampleFill, bytes) {
+                                    Ok(dd) if dd.pcm == pcm => {
+                                        let total = flac_codec::metadata::read_info(&bytes[..]).ok().and_then(|i| i.total_samples).map(|t| t.get());
+                                        (total != Some(supply as u64)).then(|| ("count-not-recorded".to_string(), format!("STREAMINFO total is {total:?}, {supply} PCM frames were written (stream at offset {start} of its sink)")))
+                                    }
+                                    Ok(_) => Some(("wrong-pcm".into(), "the stream does not decode to what was written".into())),
+                                    Err((e, _)) => Some((format!("undecodable-{}", err_class(&e)), format!("the stream at offset {start} does not decode: {e}"))),
+                                },
+                            };
+                            acc.outcome(format!("contract-offset:{w:?}:{}", if bad.is_some() { "BAD" } else { "ok" }));
+                            if let Some((clause, detail)) = bad {
+                                acc.violation(format!("C15|contract-offset|{w:?}|{clause}"), format!("{w:?} {}ch/{}bit: {detail}", sig.ch, sig.bps), case);
                             }
                         }
                     }
@@ -533,6 +586,7 @@ pub fn run(ctx: &Ctx, acc: &mut Acc) {
     acc.dim("cpu_ms_documented", t.elapsed().as_millis() as u64);
     let t = std::time::Instant::now();
     contract(ctx, acc);
+    contract_at_offset(ctx, acc);
     acc.dim("cpu_ms_contract", t.elapsed().as_millis() as u64);
     let t = std::time::Instant::now();
     stream_writer(ctx, acc);
@@ -544,6 +598,18 @@ pub fn run(ctx: &Ctx, acc: &mut Acc) {
 pub fn replay(v: &Value) -> Option<(bool, String)> {
     let w = crate::codec::writer_from(v["writer"].as_str().unwrap_or(""));
     match v["kind"].as_str()? {
+        "length-contract-offset" => {
+            let sig = crate::codec::sig_from(v);
+            let supply = v["supply"].as_u64()? as usize;
+            let cuts: Vec<usize> = v["cuts"].as_array()?.iter().map(|x| x.as_u64().unwrap_or(0) as usize).collect();
+            let pcm = ident_pcm(sig.ch, sig.bps, supply);
+            let r = fill_at(w, &sig, v["declared"].as_u64().map(|d| d as usize), &pcm, &cuts, v["start"].as_u64()? as usize);
+            let bad = match &r {
+                Ok(Ok(bytes)) => !matches!(decode(ReaderKind::SampleFill, bytes), Ok(dd) if dd.pcm == pcm) || flac_codec::metadata::read_info(&bytes[..]).ok().and_then(|i| i.total_samples).map(|t| t.get()) != Some(supply as u64),
+                _ => true,
+            };
+            Some((bad, format!("{:?}", r.map(|x| x.map(|b| b.len())))))
+        }
         "channel-call" => {
             let lens: Vec<usize> = v["lens"].as_array()?.iter().map(|x| x.as_u64().unwrap_or(0) as usize).collect();
             let r = channel_call(v["ch"].as_u64()? as u8, v["given"].as_u64()? as usize, &lens, v["at"].as_u64()? as usize);
